@@ -282,6 +282,11 @@ OPTION_PROBES = {
         ("elements_per_scale", 2, {"alpha": "auto_po2", "scale_axis": 1}),
         ("min_po2_exponent", 1, {"alpha": "auto_po2"}),
         ("max_po2_exponent", -2, {"alpha": "auto_po2"}),
+        # falsy-but-meaningful values (a truthiness test would lose them)
+        ("min_po2_exponent", 0, {"alpha": "auto_po2"}),
+        ("max_po2_exponent", 0, {"alpha": "auto_po2"}),
+        ("qnoise_factor", 0.0),
+        ("scale_axis", 0, {"alpha": "auto_po2", "elements_per_scale": 2}),
         ("post_training_scale", [0.5, 0.25, 1.0, 2.0], {"alpha": "auto_po2"}),
     ],
     "bernoulli": [
@@ -290,7 +295,8 @@ OPTION_PROBES = {
     ],
     "ternary": [
         ("alpha", 2.0), ("alpha", "auto"), ("alpha", "auto_po2"),
-        ("threshold", 0.6), ("use_stochastic_rounding", True, {"alpha": "auto"}),
+        ("threshold", 0.6), ("threshold", 0.0),
+        ("use_stochastic_rounding", True, {"alpha": "auto"}),
         ("number_of_unrolls", 1, {"alpha": "auto"}),
     ],
     "stochastic_ternary": [
@@ -307,6 +313,8 @@ OPTION_PROBES = {
         ("elements_per_scale", 2, {"alpha": "auto", "scale_axis": 1}),
         ("min_po2_exponent", 1, {"alpha": "auto_po2"}),
         ("max_po2_exponent", -3, {"alpha": "auto_po2"}),
+        ("min_po2_exponent", 0, {"alpha": "auto_po2"}),
+        ("max_po2_exponent", 0, {"alpha": "auto_po2"}),
     ],
     "stochastic_binary": [
         ("alpha", 2.0), ("alpha", "auto"), ("alpha", "auto_po2"),
@@ -317,7 +325,10 @@ OPTION_PROBES = {
         ("negative_slope", 0.25), ("use_stochastic_rounding", True),
         ("relu_upper_bound", 0.75, {"is_quantized_clip": False}),
         ("is_quantized_clip", False, {"bits": 4, "integer": 1}),
-        ("qnoise_factor", 0.5), ("use_ste", False, {"qnoise_factor": 0.5}),
+        ("qnoise_factor", 0.5), ("qnoise_factor", 0.0),
+        ("relu_upper_bound", 0.75, {"is_quantized_clip": False,
+                                    "negative_slope": 0.25}),
+        ("use_ste", False, {"qnoise_factor": 0.5}),
     ],
     "quantized_ulaw": [
         ("bits", 4), ("integer", 1), ("symmetric", 1), ("u", 15.0),
@@ -334,6 +345,7 @@ OPTION_PROBES = {
         ("bits", 4), ("max_value", 2.0), ("max_value", 0.5),
         ("use_stochastic_rounding", True), ("quadratic_approximation", True),
         ("log2_rounding", "floor"), ("qnoise_factor", 0.5),
+        ("qnoise_factor", 0.0),
         ("use_ste", False, {"qnoise_factor": 0.5}),
     ],
     "quantized_relu_po2": [
